@@ -390,7 +390,7 @@ PROPS["C06"] = {
         "the recursive verifier circuit (recursion/recursive_verifier.rs, fri/recursive_verifier.rs) is NOT modelled as a whole: component denotations only (Merkle check, PoW check, selection); the whole-verifier equivalence is tied by the three-way agreement native = in-circuit = Lean model on every inner proof variant (partial)",
     ],
     "level_text": "Lean 4: component equivalences (in-circuit Merkle verification with canonical index bits <=> verify_merkle_proof_to_cap = Ok for every path length/position/cap; in-circuit proof-of-work check <=> native check) and the native verifier's decision logic; for generated inner circuits (lookups, zk, several degrees and FRI arities) and inner proofs valid / tampered in every element class / false statements from violated gates / bad grinding / foreign verifier data, the OUTER circuit's verdict (library assignment routines, witness generation, outer prove + verify, public inputs re-exposed) must equal the native verdict, which must equal the Lean verifier model's verdict",
-    "level_note": "The in-circuit verifier is a deterministic function of the inner proof, so exact agreement is required at any strength. A misshapen proof that the assignment routines cannot place into the fixed-shape target counts as not accepted.",
+    "level_note": "Genuine finding F-C06-1 (known): the assignment routines zip over the targets, so mis-shaped inner proofs (surplus cap entries / opening values, a final polynomial that lost a trailing zero) are assigned and satisfy the circuit although the native verifier rejects their shape; no false statement becomes provable. Weak grinding with everything else valid, surplus/missing public inputs and list surgery are part of the variants. The in-circuit verifier is a deterministic function of the inner proof, so exact agreement is required at any strength. A misshapen proof that the assignment routines cannot place into the fixed-shape target counts as not accepted.",
     "assumptions": [],
     "rule": "3 (thorough 10) inner circuits x (honest + 1-3 tampered elements per JSON leaf class + bad grinding + false statements + foreign verifier data); every variant judged natively, in-circuit and by the Lean model; distinct = distinct request lines",
 }
